@@ -48,7 +48,9 @@ impl Join {
     }
 
     fn wait(&self) {
-        if self.state.load(Ordering::Acquire) {
+        // a park that is interrupted (canceled while the cancel is disabled)
+        // must not be taken for the completion
+        while self.state.load(Ordering::Acquire) {
             let cur = Blocker::current();
             // register the blocker first
             self.to_wake.store(cur.clone());
